@@ -83,6 +83,7 @@ func NewDeviceMemoryProperties(
 ) (*DeviceMemoryProperties, error) {
 	deviceProperties := &DeviceMemoryProperties{
 		useMutex:            useMutex,
+		budgetMutex:         utils.OptionalRWMutex{UseMutex: useMutex},
 		allocationCallbacks: allocationCallbacks,
 		memoryCallbacks:     memoryCallbacks,
 
